@@ -311,11 +311,14 @@ def leafKw (k : DKw) : Bool :=
 /-- the keyword falls to the `_` arm (custom type name) under the dialect -/
 def isCustomKw (c : Cfg) (k : DKw) : Bool := (headOf c k).isNone && !leafKw k
 
-/-- a raw modifier that lexes to one word or number token whose text is the modifier -/
+/-- a modifier text that lexes to exactly one word, number or single-quoted-string token which the
+parser stores back as that very text: a word whose `Display` is the text, a number whose text it is,
+a string literal whose SQL spelling (`sqSpell`) it is -/
 def modOK (env : Env) (m : W) : Bool :=
   match env.lexMod m with
   | [.number s _] => s == m
   | [.word v q _] => wordDisplay v q == some m
+  | [.sqs s] => sqSpell s == m
   | _ => false
 
 /-- the identifier prints to a `Word` token (not to a quoted-string token) -/
@@ -475,6 +478,7 @@ theorem modOK_noGt {env : Env} {m : W} (h : modOK env m = true) : ∀ x ∈ env.
   split at h
   · rename_i s l heq; intro x hx; rw [heq] at hx; simp at hx; subst hx; simp [GtT]
   · rename_i v q k heq; intro x hx; rw [heq] at hx; simp at hx; subst hx; simp [GtT]
+  · rename_i s heq; intro x hx; rw [heq] at hx; simp at hx; subst hx; simp [GtT]
   · simp at h
 
 theorem numTok_ne_gt (n : Nat) : numTok n ≠ GtT := by simp [numTok, GtT]
@@ -552,6 +556,21 @@ theorem noGt_custom (c : Cfg) (env : Env) (name : List Ident) (mods : List W)
       obtain ⟨m, hm, rfl⟩ := hxs
       exact modOK_noGt (List.all_eq_true.mp h m hm) y hy
     · simp at hx; subst hx; simp [RParen, GtT]
+
+/-- a token list without `>` has no run of three -/
+theorem shortRuns_noGt : ∀ (xs : List Tok) (n : Nat), n ≤ 2 → (∀ x ∈ xs, x ≠ GtT) → shortRuns n xs = true
+  | [], n, hn, _ => by simpa [shortRuns] using hn
+  | x :: r, n, hn, h => by
+    have hx : x ≠ GtT := h x (by simp)
+    simp only [shortRuns, hx, if_false, Bool.and_eq_true, decide_eq_true_eq]
+    exact ⟨hn, shortRuns_noGt r 0 (by omega) (fun y hy => h y (by simp [hy]))⟩
+
+/-- a custom type is producible as soon as its name and each of its modifiers are, whatever the
+lexer does with `>` -/
+theorem producible_custom (c : Cfg) (env : Env) (g : Bool) (name : List Ident) (mods : List W)
+    (hn : nameOK c env name = true) (hm : mods.all (modOK env) = true) :
+    Producible c env g (.custom name mods) :=
+  ⟨by simp only [prod, hn, hm, Bool.and_self], Or.inr (shortRuns_noGt _ 0 (by omega) (noGt_custom c env name mods hm))⟩
 
 
 -- ------------------------------------------------------------------ lexer vs compositional stream
